@@ -759,3 +759,77 @@ def tautology(ck, F, rule="SELF-COMPARE", scope=("cut_paste", "actions", "move_f
                           "every other sheet at the same coordinates are treated as if they were in the area" % (qn, cn, i, j, f, cn), fl, ln,
                           sample={"caller": qn, "helper": cn})
     ck.note("helper_call_sites", n)
+
+
+def dynamic_scalar_extent(ck, F, rule="SPILL"):
+    """A dynamic-array anchor that evaluates to a scalar / error owns exactly its own cell: in
+    Model::set_cells_with_result, wherever a Cell::ArrayFormula is rebuilt with a `kind` that this function sets to
+    ArrayKind::Dynamic, the extent `r` paired with it never comes from the previous extent of the cell (Cell.r): it is
+    the constant (1, 1) or the dimensions of the freshly computed array.  Only CSE formulas keep their fixed range."""
+    CELL = "ironcalc_base::types::Cell"
+    OLD_R = ("field", CELL, "r")
+    b = ck.need(F.one, "model::Model::set_cells_with_result")
+
+    def root(l):
+        for _ in range(4):
+            if b.local_name(l) or len(b.defs().get(l, [])) != 1:
+                return l
+            rv2 = b.def_rvalue(l)
+            q = op_place(rv2["o"]) if rv2 is not None and rv2["k"] == "use" else None
+            if q is None or place_proj(q):
+                return l
+            l = q["l"]
+        return l
+
+    def is_dyn_operand(o):
+        q = op_place(o)
+        if q is None or place_proj(q):
+            return False
+        for (db, ds) in b.defs().get(q["l"], []):
+            if ds != "t":
+                rv2 = b.blocks[db]["s"][ds]["rv"]
+                if rv2["k"] == "agg" and rv2.get("variant") == "Dynamic":
+                    return True
+        return False
+    n = 0
+    for bi, si, s in b.stmts():
+        rv = s["rv"]
+        if rv["k"] != "agg" or rv.get("adt") != CELL or rv.get("variant") != "ArrayFormula":
+            continue
+        ops = dict(zip(rv.get("fields") or [], rv["ops"]))
+        ko, ro = ops.get("kind"), ops.get("r")
+        if ko is None or ro is None or op_place(ko) is None or op_place(ro) is None:
+            continue
+        kl, rl = root(op_place(ko)["l"]), root(op_place(ro)["l"])
+        f, l = b.loc(bi, si)
+        pairs = []      # [(description, sources of the extent paired with a Dynamic kind)]
+        # (a) kind and r destructured from one tuple: `let (kind, r) = if .. { (Dynamic, (1, 1)) } else { (Cse, (w, h)) }`
+        kd = [b.blocks[db]["s"][ds]["rv"] for (db, ds) in b.defs().get(kl, []) if ds != "t"]
+        rdv = [b.blocks[db]["s"][ds]["rv"] for (db, ds) in b.defs().get(rl, []) if ds != "t"]
+        tup = None
+        for x in kd:
+            q = op_place(x.get("o", {})) if x["k"] == "use" else None
+            if q is not None and place_proj(q) and place_proj(q)[0][0] == "f" and place_proj(q)[0][3] == "tuple" and place_proj(q)[0][1] == 0:
+                for y in rdv:
+                    q2 = op_place(y.get("o", {})) if y["k"] == "use" else None
+                    if q2 is not None and q2["l"] == q["l"] and place_proj(q2) and place_proj(q2)[0][1] == 1:
+                        tup = q["l"]
+        if tup is not None:
+            for (db, ds) in b.defs().get(tup, []):
+                if ds == "t":
+                    continue
+                tv = b.blocks[db]["s"][ds]["rv"]
+                if tv["k"] == "agg" and tv.get("agg") == "tuple" and len(tv["ops"]) == 2 and is_dyn_operand(tv["ops"][0]):
+                    pairs.append(("tuple arm", sources(b, tv["ops"][1])))
+        # (b) kind assigned directly to Dynamic somewhere: whatever extent is stored with it
+        elif any(x["k"] == "agg" and x.get("variant") == "Dynamic" for x in kd) or is_dyn_operand(ko):
+            pairs.append(("direct", sources(b, ro)))
+        if not pairs:
+            continue
+        n += 1
+        bad = [p for p in pairs if OLD_R in p[1]]
+        ck.ob(rule, "set_cells_with_result|Dynamic-kind never paired with the old extent#%d" % n, not bad,
+              "set_cells_with_result rebuilds an anchor as ArrayKind::Dynamic with the extent it had before (Cell.r): when a formula that "
+              "spilled stops returning an array, the released block is still treated as its spill and user content typed there is deleted",
+              f, l, sample={"pairing": [p[0] for p in pairs]})
+    ck.ob(rule, "set_cells_with_result|rebuild-sites", n >= 1, "no Cell::ArrayFormula rebuild that sets ArrayKind::Dynamic was found (anchor lost?)", b.file, b.line)
